@@ -1,6 +1,7 @@
 import IstioModel.Common.Wire
 import IstioModel.C12.Spec
 import IstioModel.C12.VHosts
+import IstioModel.C12.MeshSpec
 
 /-! Line-protocol driver for C12 (streams `routes`, `requests`, `vhosts`). See harness/c12. -/
 namespace IstioModel.C12
@@ -116,6 +117,7 @@ structure DState where
   ctx : Ctx := {}
   vs : VirtualService := {}
   vh : VHDriver := {}
+  mesh : Mesh := {}
 
 /-- The opaque regex semantics for one request: the (regex, subject) pairs Go's RE2 engine accepts,
     carried on the `req` line. -/
@@ -206,6 +208,20 @@ def stepD (d : DState) (toks : List String) : DState × String :=
     let l := if vss == "-" then [] else (vss.splitOn ";")
     let named := (List.range l.length).zip l |>.map (fun p => ("vs" ++ toString p.1, decList p.2))
     (d, encList (selectVS (decList svcs) named))
+  | ["msvc", h, ns, ports, addr] =>
+    let ps := (decList ports).map String.toNat!
+    ({ d with mesh := { d.mesh with svcs := d.mesh.svcs ++ [{ host := dec h, ns := dec ns, ports := ps, addr := dec addr }] },
+              -- the spec resolves destinations against the FULL registry
+              ctx := { d.ctx with services := d.ctx.services ++ [{ host := dec h, ports := ps }] } }, "ok")
+  | ["mvs"] => ({ d with mesh := { d.mesh with vss := d.mesh.vss ++ [d.vs] } }, "ok")
+  | ["rds", ns, labels, port] =>
+    ({ d with ctx := { d.ctx with proxyNamespace := dec ns, proxyLabels := decPairs labels, gatewayNames := ["mesh"],
+                                  listenPort := port.toNat! },
+              mesh := { d.mesh with proxyDomain := dec ns ++ ".svc.cluster.local" } }, "ok")
+  | "rreq" :: f =>
+    match decReq f with
+    | none => (d, "bad-op")
+    | some (req, re) => (d, showDecision (meshSpec re d.ctx d.mesh req))
   | ["acc"] => ({ d with vh := { d.vh with acc := d.vh.acc ++ compile d.ctx d.vs } }, "ok")
   | ["sortv"] => (d, showRoutes (sortVHostRoutes d.vh.acc))
   | "sreq" :: f =>
